@@ -4,9 +4,26 @@ PROPERTIES = {
     "C03": dict(
         modules=["samplers"],
         level="proof",
-        claim="membership of sampled points and rng-trace laws of the samplers; circumcircles enclose their regions",
-        note="see evidence.trusted_base",
-        assumptions=[],
-        not_reached=[],
+        claim=(
+            "membership and RNG-trace laws of the samplers: Rectangular/Circular/SectorRegion.uniformPointInner (draws, their arguments, point as "
+            "a function of the draws, membership in the region at its height); PointSetRegion.uniformPointInner (randrange(0, n), result = points[i]); "
+            "the point-set x region sampler (candidates = exactly the points of the set in the other region, one uniform choice); "
+            "Intersection/Difference/UnionRegion.genericSampler (member of every operand / of A and not B / of the chosen operand of maximal "
+            "dimension weighted by size, accepted iff u >= 1 - 1/k with k counted over ALL operands); every circumcircle "
+            "(Circular, Sector, Rectangular, Mesh) encloses its region; GridRegion.gridToPoint/pointToGrid (affine map, nearest index, round trip)"
+        ),
+        note="trigonometry by axioms A2 (Pythagoras, quarter-turn shift); polygons of the planar primitives are stubs (membership is judged on the exact disc / sector / rectangle)",
+        assumptions=[
+            "A3: laws of the library RNG primitives (random, uniform, triangular, randrange, choices, choice)",
+            "an operand's own sampler returns one of its members (this property for the operands: assume-guarantee)",
+            "KD-tree query_ball_point returns exactly the points within the radius",
+        ],
+        not_reached=[
+            "uniformity of the continuous samplers (change of variables for triangular radius x uniform angle, triangle rejection in PolygonalRegion.uniformPointInner): statistical, not deductive",
+            "PolygonalRegion.uniformPointInner/_samplingData (triangulation + rejection loop: almost-sure termination only)",
+            "MeshVolumeRegion/MeshSurfaceRegion/VoxelRegion/PathRegion/PolylineRegion.uniformPointInner (trimesh.sample / numpy internals)",
+            "GridRegion.containsPoint over the numpy grid (only the index maps are verified)",
+        ],
+        bounded=["point-set x region sampler: 2 points", "generic samplers: 2 (intersection) / 2-3 (union) operands"],
     )
 }
